@@ -260,7 +260,7 @@ func c14One(run *ev.Run, p c14P) {
 		}
 	}
 	e.BMC.Handler = repo.Handle
-	ctx, cancel := bg(40 * time.Second)
+	ctx, cancel := bg(12 * time.Second)
 	defer cancel()
 	sess, err := e.OpenSession(ctx, stdSuites()[p.Suite%9])
 	if err != nil {
